@@ -72,8 +72,8 @@ def sem_check(ctx, P, variants, level="exploration", timeout=60, extra_cov=None,
     index = []
     for i, p in enumerate(P):
         for (vn, kw) in variants(p):
-            kw = dict(kw)
-            jobs.append((kw.pop("_task", "prob"), kw))
+            kw2 = dict(kw)
+            jobs.append((kw2.pop("_task", "prob"), kw2))
             index.append((i, vn, kw))
     runs = pl.run_jobs(jobs, nproc=ctx.nproc, timeout=timeout)
     classes = {"mustAnswer": 0, "mustReject": 0, "either": 0, "invalid": 0, "inconsistent": 0}
@@ -155,7 +155,8 @@ def sem_replay(ctx, path):
     case = d["case"]
     p = case["program"]
     J = semcheck.judge([p], nproc=1, use_cache=False)[0]
-    r = pl.run_local("prob", **case["kwargs"])
+    kw = dict(case["kwargs"])
+    r = pl.run_local(kw.pop("_task", "prob"), **kw)
     ctx.evaluations += 1
     vs = semcheck.verdict(p, J, r) or []
     print("program:\n" + case["kwargs"].get("text", ""))
